@@ -10,6 +10,7 @@ from ..dectree import Cell, decide, int_constants_compared, partition, _cmp
 from ..model import AnalysisError, FuncInfo, Project, walk_local, call_name
 from ..paths import PState, run_paths, subst_text, is_benign_call
 from ..report import Report
+from ..roles import incoming_send_calls, stream_roles
 
 CUTOFF = (2025, 6, 18)  # the property's own constant
 
@@ -243,7 +244,7 @@ def r3(P: Project, R: Report) -> None:
     route_names = set()
     for f in meths.values():
         # the router: sends the message on the incoming stream
-        if any(isinstance(c, ast.Call) and call_name(c) in ("self._incoming_send.send", "self._incoming_send.send_nowait") for c in walk_local(f.node)):
+        if any(isinstance(c, ast.Call) and call_name(c) in incoming_send_calls(P, client) for c in walk_local(f.node)):
             route_names.add(f.name)
     R.need(route_names, "anchor: no StdioClient method sends on the incoming stream")
 
